@@ -6,6 +6,14 @@ ALL = ["C%02d" % i for i in range(1, 21)]
 
 # property -> (level, design_ref, engine, technique, level text, level note)
 CLAIMED = {
+ "C05": ("exploration", "DESIGN.md §2 C05", "vp",
+   "exhaustive enumeration of the configuration product (transport x client credentials x accept decision x owner/mode chosen) on the real IPC code, with a monitor that walks the private /dev/shm after every file-system call of the server",
+   "For each of the 96 configurations the client coroutine runs under its own real and effective uid/gid (per-thread setresuid/setresgid), so the credentials the accept callback is given and every permission check are the kernel's. After every wrapped file-system call the server makes (mkdtemp, open, chmod, chown, ftruncate, bind, unlink, rmdir) the private /dev/shm is walked: no directory may carry 'other' bits and no file may be more permissive than the connection's mode at that moment; once the client's connect call has returned, every entry must belong to the authorised owner/group. A refusal must fail the connect call with exactly that error, leave no file, directory or descriptor behind and never reach the message callback.",
+   "Needs root with CAP_SYS_ADMIN; one canonical schedule per configuration (one deviation in thorough); chosen modes that do not let the client open its files are expected to make connect fail; the 0770 connection directory is the documented design (group bits on the directory are not flagged)."),
+ "C06": ("exploration", "DESIGN.md §2 C06", "vp",
+   "bounded-exhaustive enumeration of hostile handshake byte strings and of hostile messages of an accepted client against a live real server, ASan plus a reading message callback as oracle",
+   "With a well-behaved control client connected, a raw client sends every prefix of a valid handshake, every field (id, size, max_msg_size) replaced by eight boundary values, 1-64 bytes of trailing garbage, and the request split at every byte with loop iterations in between, each followed by close, silence or further writing; an accepted client then writes, through the raw channels (ring chunk + notification byte, or datagram), messages whose real length (0..2*max) and announced length (INT_MIN..INT_MAX around the real length and the maximum) disagree in every combination, with three ids. The server must keep serving the control client, never invoke the message callback for an unaccepted peer, never tell the callback more bytes than were received or negotiated (the callback reads exactly that many bytes under ASan), and release the peer's descriptors.",
+   "Input sets bounded as stated; the raw channels of the hostile client are reached through the client-side struct qb_ipc_one_way."),
  "C03": ("fault_enumeration", "DESIGN.md §2 C03", "vp",
    "exhaustive crash-point enumeration: the dying party (client or server coroutine of the real IPC code) is stopped before each of its wrapped system/libc calls in turn and exactly its descriptors are closed",
    "For both transports and each session script (connect/disconnect; two request/response round trips; further requests left queued behind flow control; queued events; a raw client delivering only the first j handshake bytes) the run is repeated with the client killed before its K-th wrapped call for every K, with the server killed before its K-th call during each session, and with the server killed K calls after the connect while sendv_recv(-1), event_recv(-1) or recv(500 ms) is waiting on a server that does not answer. A control client stays connected. Oracle: destroyed exactly once (closed first iff created was reported), the control client's round trip still works, /dev/shm listing, descriptor count and active-connection statistic return to the baseline; waiting calls return within a bounded virtual time, later calls fail at once, and after the client's disconnect no shared-memory file of the dead server remains.",
